@@ -16,11 +16,11 @@ def run(res):
     from .. import common, replay
     from ..adapters.world import WorldAdapter
     C3 = {'c1': ('A', ('on_add', 'on_remove', 'probe')), 'c2': ('A', ('probe',)), 'c3': ('B', ('on_remove', 'probe'))}
-    Kw = wc.base(Acts={'create', 'add', 'remove', 'delete', 'process', 'probe', 'probekill'}, Ids={1, 2}, MaxAuto=0, Types=wc.T2, Bases=wc.BASES2,
+    Kw = wc.base(Acts={'create', 'add', 'remove', 'delete', 'process', 'probe', 'probekill', 'reentrant', 'toggle'}, MaxQ=2, Ids={1, 2}, MaxAuto=0, Types=wc.T2, Bases=wc.BASES2,
                  **wc.comps(C3))
     desper = common.import_desper()
     r, g = res.model_check_py('World', 'c10_world', Kw, invariants=wc.INVARIANTS, properties=wc.PROPERTIES, dump=True)
-    own = {'log', 'is_handler', 'ret', 'comps'}
+    own = {'log', 'is_handler', 'ret', 'comps', 'enabled', 'wb_queue_len', 'alive_detached'}
     st = replay.run_paths(g, lambda: WorldAdapter(desper, Kw, weak=True), replay.edge_paths(g), own=own)
     res.absorb(st, 'c10_world:every-edge (world holds the only strong references)', g)
     # non-vacuity: as implemented (no dead-reference check) the model calls a dead receiver
